@@ -288,6 +288,10 @@ class Harness:
                 if kind == "key":
                     raise KeyError(parent)
                 raise RuntimeError(f"injected handler fault in {parent}")
+            elif k == "strategy":
+                from pydsol.core.simulator import ErrorStrategy
+                sim.set_error_strategy({"log": ErrorStrategy.LOG_AND_CONTINUE, "warn": ErrorStrategy.WARN_AND_CONTINUE,
+                                        "pause": ErrorStrategy.WARN_AND_PAUSE}[a[1]])
             elif k == "gate":
                 g = self.gates.setdefault(a[1], Gate())
                 g.reached.set()
